@@ -58,6 +58,9 @@ OPTIONS = [
     ("nested={}", {**NESTED_JSON, "default": {}}, lambda: nested_cls({}), False, {"m": "q"}, {"n": 3, "m": "q"}, True, {"n": 3}),
     ("nested=5(invalid)", {**NESTED_JSON, "default": 5}, lambda: nested_cls(5), False, {"n": 1}, {"n": 1}, True, 5),
     ("required int=5", {"type": "integer", "default": 5}, lambda: Integer(default=5), True, 7, 7, True, 5),
+    # compositions of trivial members only: each keeps its own default
+    ("allOf[{}]=3", {"allOf": [{}], "default": 3}, lambda: Element(default=3), False, "s", "s", True, 3),
+    ("anyOf[true]='none'", {"anyOf": [True], "default": "none"}, lambda: Element(default="none"), False, 1, 1, True, "none"),
 ]
 NAMES = [("a", "a"), ("class", "class_"), ("a b", "a_b")]
 ADDITIONAL = [
@@ -73,6 +76,7 @@ FORMS = ["parsed-typed", "parsed-untyped", "dsl-class", "inline", "element-prope
 def build(form, props, addl):
     """props: list of (json name, py name, option index).  Returns the callable model."""
     a_label, a_json, a_dsl = addl
+    form = form.replace("/first-use", "")
     pattern = form.endswith("+pattern")
     form = form.replace("+pattern", "")
     pat_json = {"^(a|class)": {}} if pattern else None
@@ -323,11 +327,22 @@ def plan(tier, seed):
     items += [("novalue", lo, min(ntrees, lo + 300)) for lo in range(0, ntrees, 300)]
     nf = len(default_class_family())
     items += [("novalueseq", lo, min(nf, lo + 3)) for lo in range(0, nf, 3)]
-    return {"items": items, "meta": {"forms": FORMS, "options": [o[0] for o in OPTIONS], "names": NAMES, "additionalProperties": [a[0] for a in ADDITIONAL], "property_sets": len(sets), "no_value_trees": ntrees, "exhaustive": True}}
+    # first use: every ordered pair of options, each in a process that has imported the library and done nothing else
+    # (module-level state of the library as after import; later parses in a long-lived worker can mask a first-use fault)
+    first = [("first", form, oi, oj) for form in ("parsed-typed", "parsed-untyped", "dsl-class") for oi in range(len(OPTIONS)) for oj in range(len(OPTIONS)) if OPTIONS[oi][6] or OPTIONS[oj][6]]
+    return {"items": items, "pristine_items": first, "meta": {"first_use_pairs_in_pristine_processes": len(first), "forms": FORMS, "options": [o[0] for o in OPTIONS], "names": NAMES, "additionalProperties": [a[0] for a in ADDITIONAL], "property_sets": len(sets), "no_value_trees": ntrees, "exhaustive": True}}
 
 
 def work(item):
     st = runner.Stats()
+    if item[0] == "first":
+        _, form, oi, oj = item
+        props = [("a", "a", oi), ("class", "class_", oj)]
+        for supplied in ((), (0,), (1,), (0, 1)):
+            if any(OPTIONS[p[2]][3] and not OPTIONS[p[2]][6] and i not in supplied for i, p in enumerate(props)):
+                continue
+            check_case(st, form + "/first-use", props, ADDITIONAL[0], supplied, False, 0)
+        return st
     if item[0] == "novalueseq":
         novalue_sequences(st, item[1], item[2])
         st.sample({"class_default_families": [f[0] for f in default_class_family()[item[1]:item[2]]]})
